@@ -244,6 +244,7 @@ func runC12(tier string) int {
 				st, ok := storemc.RunIsolation(s, col, label, names, dl)
 				bigOps := storemc.RunBigClear(s, col, label)
 				st.Ops += bigOps
+				st.Ops += storemc.RunTableDelete(s, col, label)
 				mu.Lock()
 				tot.Pairs += st.Pairs
 				tot.Ops += st.Ops
